@@ -124,6 +124,7 @@ func (z *Renderer) SetCReg(adj uint8, incr bool, c ivg.Color) {
 	z.cReg[(z.cSel-adj)&0x3f] = c.Resolve(&z.palette, &z.cReg)
 	if incr {
 		z.cSel++
+		z.cSel &= 0x3f
 	}
 }
 
@@ -131,6 +132,7 @@ func (z *Renderer) SetNReg(adj uint8, incr bool, f float32) {
 	z.nReg[(z.nSel-adj)&0x3f] = f
 	if incr {
 		z.nSel++
+		z.nSel &= 0x3f
 	}
 }
 
